@@ -93,6 +93,16 @@ struct Scene {
         for (auto &j : juncs) { Point q = j.ref->position(), rq = j.ref->recommendedPosition();
             printf("jpos %d %s %s %s %s %d\n", j.id, hx(q.x).c_str(), hx(q.y).c_str(), hx(rq.x).c_str(), hx(rq.y).c_str(), (int) j.ref->positionFixed()); }
         for (auto &c : conns) if (c.live) {
+            // what the library itself says the two ends are attached to (ConnRef::endpointConnEnds)
+            std::pair<ConnEnd, ConnEnd> ce = c.ref->endpointConnEnds();
+            printf("ends %d", c.id);
+            for (int e = 0; e < 2; ++e) {
+                const ConnEnd &E = e ? ce.second : ce.first;
+                if (E.type() == ConnEndShapePin && E.shape()) printf(" P %d %u", (int) E.shape()->id() - 10, E.pinClassId());
+                else if (E.type() == ConnEndJunction && E.junction()) printf(" J %d", (int) E.junction()->id() - 100);
+                else { Point q = E.position(); printf(" F %s %s", hx(q.x).c_str(), hx(q.y).c_str()); }
+            }
+            printf("\n");
             pts("route", c.id, c.ref->route());
             pts("disp", c.id, c.ref->displayRoute());
         }
@@ -306,11 +316,10 @@ int main(int argc, char **argv) {
         for (int st = 1; st <= nsteps; ++st) {
             int nops = (int) r.range(1, 2);
             for (int o = 0; o < nops; ++o) {
-                int kind = (int) r.range(0, 19);
+                int kind = (int) r.range(0, 23);
                 std::vector<int> liveShapes;
                 for (auto &s : sc.shapes) if (s.live) liveShapes.push_back(s.id);
-                if (kind <= 6 && !liveShapes.empty()) {            // translate a shape inside its cell
-                    ShapeD &s = sc.shapes[r.pick(liveShapes)];
+                auto moveInCell = [&](ShapeD &s) {
                     double w = s.x1 - s.x0, h = s.y1 - s.y0;
                     double nx0 = s.cx * CELL + MARGIN + q4(r, 0, (long) (CELL - 2 * MARGIN - w) - 1, sc.frac);
                     double ny0 = s.cy * CELL + MARGIN + q4(r, 0, (long) (CELL - 2 * MARGIN - h) - 1, sc.frac);
@@ -318,17 +327,65 @@ int main(int argc, char **argv) {
                     printf("op move %d %s %s\n", s.id, hx(dx).c_str(), hx(dy).c_str()); fflush(stdout);
                     sc.router->moveShape(s.ref, dx, dy);
                     s.x0 += dx; s.x1 += dx; s.y0 += dy; s.y1 += dy;
+                };
+                auto moveJunc = [&](JuncD &j) {
+                    double nx = j.cx * CELL + q4(r, 64, 192, sc.frac), ny = j.cy * CELL + q4(r, 64, 192, sc.frac);
+                    printf("op jmove %d %s %s\n", j.id, hx(nx - j.x).c_str(), hx(ny - j.y).c_str()); fflush(stdout);
+                    sc.router->moveJunction(j.ref, nx - j.x, ny - j.y);
+                    j.x = nx; j.y = ny;
+                };
+                if (kind >= 20) {
+                    // re-target one end of an existing connector (setSourceEndpoint / setDestEndpoint) to
+                    // another shape's pin class, a junction or a free point, and IN THE SAME TRANSACTION
+                    // move the object it was attached to and/or the new one (before or after the call)
+                    std::vector<int> lc; for (auto &c : sc.conns) if (c.live) lc.push_back(c.id);
+                    if (lc.empty()) continue;
+                    ConnD &c = sc.conns[r.pick(lc)];
+                    int e = (int) r.range(0, 1);
+                    EndD old = c.e[e], other = c.e[1 - e], N; N.kind = 'F'; N.obj = -1; N.cls = 0;
+                    if (old.kind == 'P' && !sc.shapes[old.obj].live) continue;
+                    if (other.kind == 'P' && !sc.shapes[other.obj].live) continue;
+                    int nk = (int) r.range(0, 9);
+                    if (nk <= 5) {
+                        std::vector<std::pair<int, unsigned>> opts;
+                        for (auto &p : sc.pins) if (p.live && sc.shapes[p.shape].live && !(other.kind == 'P' && other.obj == p.shape) &&
+                                !(old.kind == 'P' && old.obj == p.shape && old.cls == p.cls) &&
+                                (overcap || capacityLeft(p.shape, p.cls) > 0)) opts.push_back({p.shape, p.cls});
+                        if (!opts.empty()) { auto o = r.pick(opts); N.kind = 'P'; N.obj = o.first; N.cls = o.second; }
+                    } else if (nk <= 7 && !sc.juncs.empty() && other.kind != 'J' && (c.cps.empty() || cpJunctionMode)) {
+                        int j = (int) r.range(0, (long) sc.juncs.size() - 1);
+                        if (!(old.kind == 'J' && old.obj == j)) { N.kind = 'J'; N.obj = j; }
+                    }
+                    if (N.kind == 'F') {
+                        if (freeCellBase < cells.size()) {
+                            auto cell = cells[freeCellBase + r.range(0, (long) (cells.size() - freeCellBase) - 1)];
+                            N.x = cell.first * CELL + q4(r, 8, CELL - 8, sc.frac); N.y = cell.second * CELL + q4(r, 8, CELL - 8, sc.frac);
+                        } else { N.x = (double) (r.range(0, GRID) * CELL); N.y = q4(r, 0, GRID * CELL, sc.frac); }
+                        if (other.kind == 'F' && other.x == N.x && other.y == N.y) continue;
+                        bool clash = false; for (auto &p : c.cps) if (p.x == N.x && p.y == N.y) clash = true;
+                        if (clash) continue;
+                    }
+                    int mvOld = (int) r.range(0, 3);         // 0 none, 1 before, 2 after, 3 before (old object moved)
+                    bool mvNew = r.coin(1, 3);
+                    auto moveObj = [&](const EndD &E) {
+                        if (E.kind == 'P' && sc.shapes[E.obj].live) moveInCell(sc.shapes[E.obj]);
+                        else if (E.kind == 'J') moveJunc(sc.juncs[E.obj]);
+                    };
+                    if (mvOld == 1 || mvOld == 3) moveObj(old);
+                    printf("op retarget %d %d", c.id, e); sc.emitEnd(N); printf("\n"); fflush(stdout);
+                    c.e[e] = N;
+                    if (e == 0) c.ref->setSourceEndpoint(sc.mkEnd(N)); else c.ref->setDestEndpoint(sc.mkEnd(N));
+                    if (mvOld == 2) moveObj(old);
+                    if (mvNew) moveObj(N);
+                } else if (kind <= 6 && !liveShapes.empty()) {     // translate a shape inside its cell
+                    moveInCell(sc.shapes[r.pick(liveShapes)]);
                 } else if (kind <= 12 && !liveShapes.empty()) {    // resize (new rectangle in the same cell)
                     ShapeD &s = sc.shapes[r.pick(liveShapes)];
                     sc.rectIn(r, s.cx, s.cy, s.x0, s.y0, s.x1, s.y1);
                     printf("op resize %d %s %s %s %s\n", s.id, hx(s.x0).c_str(), hx(s.y0).c_str(), hx(s.x1).c_str(), hx(s.y1).c_str()); fflush(stdout);
                     sc.router->moveShape(s.ref, Rectangle(Point(s.x0, s.y0), Point(s.x1, s.y1)));
                 } else if (kind <= 14 && !sc.juncs.empty()) {      // move a junction inside its cell
-                    JuncD &j = sc.juncs[r.range(0, (long) sc.juncs.size() - 1)];
-                    double nx = j.cx * CELL + q4(r, 64, 192, sc.frac), ny = j.cy * CELL + q4(r, 64, 192, sc.frac);
-                    printf("op jmove %d %s %s\n", j.id, hx(nx - j.x).c_str(), hx(ny - j.y).c_str()); fflush(stdout);
-                    sc.router->moveJunction(j.ref, nx - j.x, ny - j.y);
-                    j.x = nx; j.y = ny;
+                    moveJunc(sc.juncs[r.range(0, (long) sc.juncs.size() - 1)]);
                 } else if (kind == 15) {                            // new connector
                     ConnD c;
                     if (sc.conns.size() < 9 && genConn(c)) { printf("op addconn\n"); sc.declConn(c); fflush(stdout); sc.makeConn(c); sc.conns.push_back(c); }
